@@ -46,6 +46,9 @@ func summary(fr *frame, fn *ssa.Function, name string, args []value) (value, boo
 	if v, ok := blsSummary(fr, fn, name, args); ok {
 		return v, true
 	}
+	if v, ok := jsonSummary(fr, name, args); ok {
+		return v, true
+	}
 	if name == "fmt.Sprintf" || name == "fmt.Errorf" || name == "fmt.Sprint" {
 		va := args[len(args)-1].([]value)
 		anySym := false
@@ -197,6 +200,20 @@ func summary(fr *frame, fn *ssa.Function, name string, args []value) (value, boo
 			return ok, true
 		case "Len":
 			return m.len(), true
+		case "Range":
+			for _, e := range append([]*entry{}, m.ents...) {
+				r := call(fr.i, fr, 0, args[1], []value{e.key, e.value})
+				if b, ok := r.(bool); ok && !b {
+					break
+				}
+			}
+			return nil, true
+		case "GetOrInsert":
+			if v, ok := m.lookup2(args[1]); ok {
+				return tuple{v, true}, true
+			}
+			m.insert(args[1], args[2])
+			return tuple{args[2], false}, true
 		}
 		panic("hashmap summary: " + meth)
 	case strings.HasPrefix(name, "(*sync/atomic.Value)."):
